@@ -31,11 +31,24 @@ func init() {
 var curT *testing.T
 
 // engineTransport dispatches HTTP requests straight into the gin engine (no sockets).
-type engineTransport struct{ h http.Handler }
+type engineTransport struct {
+	h http.Handler
+	w *World
+}
 
 func (t engineTransport) RoundTrip(req *http.Request) (*http.Response, error) {
 	rec := httptest.NewRecorder()
 	t.h.ServeHTTP(rec, req)
+	if rec.Code >= 500 && t.w != nil {
+		t.w.mu.Lock()
+		l, _ := t.w.Extra["http-5xx"].([]string)
+		seg := strings.Split(req.URL.Path, "/")
+		if len(seg) > 3 {
+			seg = seg[:3]
+		}
+		t.w.Extra["http-5xx"] = append(l, fmt.Sprintf("%s %s -> %d", req.Method, strings.Join(seg, "/"), rec.Code))
+		t.w.mu.Unlock()
+	}
 	return rec.Result(), nil
 }
 
@@ -179,6 +192,14 @@ func c19Alphabet(tier string) []c19Req {
 	raw("GET", "/process/logs/a/-5/99999", "", 2)
 	raw("GET", "/process/logs/a/99999999999999999999/1", "", 4)
 	raw("PATCH", "/process/scale/a/x", "", 4)
+	raw("PATCH", "/process/scale/a/-1", "", 4)
+	raw("PATCH", "/process/scale/a/0", "", 4)
+	raw("PATCH", "/process/scale/nosuch/2", "", 4)
+	raw("PATCH", "/process/stop/nosuch", "", 4)
+	raw("POST", "/process/start/nosuch", "", 4)
+	raw("POST", "/process/restart/nosuch", "", 4)
+	raw("GET", "/process/nosuch", "", 4)
+	raw("GET", "/process/info/nosuch", "", 4)
 	raw("PATCH", "/process/scale/a/99999999999999999999", "", 4)
 	raw("PATCH", "/processes/stop", "", 4)
 	raw("PATCH", "/processes/stop", "[\"a\"", 4)
@@ -234,7 +255,7 @@ func c19Scenarios(tier string) []*Scenario {
 			if w.sc.Transport == "rest" {
 				e := c19Setup(w)
 				old := http.DefaultTransport
-				http.DefaultTransport = engineTransport{e.engine}
+				http.DefaultTransport = engineTransport{e.engine, w}
 				defer func() { http.DefaultTransport = old }()
 				if err := e.cl.IsAlive(); err != nil {
 					return "", fmt.Errorf("server does not answer /live any more: %w", err)
@@ -294,7 +315,7 @@ func c19Do(w *World, rq c19Req) (string, error) {
 	if w.sc.Transport == "rest" {
 		e := c19Setup(w)
 		old := http.DefaultTransport
-		http.DefaultTransport = engineTransport{e.engine}
+		http.DefaultTransport = engineTransport{e.engine, w}
 		v, err = rq.Client(e.cl, w)
 		http.DefaultTransport = old
 	} else {
@@ -380,9 +401,16 @@ func c19Check(w *World) []Violation {
 			vs = append(vs, viol("C19", "result-differs:"+route+":error", "%s: REST/client error=%v, direct error=%v", label, r.Err, d.Err))
 			continue
 		}
+		if r.Err != nil && d.Err != nil && r.Err.Error() != d.Err.Error() && !strings.Contains(label, "a b") && !strings.Contains(label, "()") {
+			// the client is expected to hand the server's error message on
+			vs = append(vs, viol("C19", "result-differs:"+route+":error-message", "%s: client error %q, runner error %q", label, r.Err, d.Err))
+		}
 		if r.Err == nil && r.Val != d.Val {
 			vs = append(vs, viol("C19", "result-differs:"+route, "%s:\n client %s\n direct %s", label, short400(r.Val), short400(d.Val)))
 		}
+	}
+	if l, _ := w.Extra["http-5xx"].([]string); len(l) > 0 {
+		vs = append(vs, viol("C19", "5xx:"+strings.SplitN(l[0], " ->", 2)[0], "the server answered %v", l))
 	}
 	if p1, p2 := c19Project(w.pre()), c19Project(w2.pre()); p1 != p2 {
 		vs = append(vs, viol("C19", "state-differs:effects", "the request history has different effects through REST:\n rest   %s\n direct %s", p1, p2))
